@@ -1,5 +1,6 @@
 import Magog.Model.Time
 import Magog.Model.Eval
+import Magog.Model.Search
 import Magog.Spec.Chess
 import Magog.Spec.Fen
 import Magog.Abs
@@ -124,6 +125,37 @@ def specFindMove (p : Spec.Pos) (s : String) : Option Spec.Move :=
   (Spec.legalMoves p).find? fun m => specMoveStr m == s
 
 partial def specPerft (p : Spec.Pos) (d : Nat) : Nat := Spec.paths p d
+
+def stableSort (ms : List RMove) : List RMove := ms.mergeSort fun a b => a.ranking ≥ b.ranking
+
+def quietEnv (lazy : Bool) : Env :=
+  { blend := floatBlend, sortFn := stableSort, timeUp := fun _ => false, stopAt := fun _ => false,
+    gateOpen := fun _ => false, logInterval := 1000000, lazy := lazy }
+
+def pvStr (ms : List Move) : String := ",".intercalate (ms.map mvStr)
+
+/-- the iteration sequence of `VerifSearch` (hdrv `search`): startAlphaBeta for d = 1..maxDepth with the
+    previous best line as ordering hint, fresh killer table, no clock, no stop -/
+def searchIters (lazy : Bool) (p : Position) (maxDepth : Nat) : M String := do
+  let env := quietEnv lazy
+  let mut s : SS := { rows := newRows env.pvRows, killers := Killers.empty, nodes := 0, interrupted := false, tick := 0,
+                      matched := 0, cand := [], rootMoves := [], firstMoveIdx := 0, out := [] }
+  let mut len0 ← rowLen s 0
+  let mut out := ""
+  for d in [1:maxDepth+1] do
+    let (score, one, l0, s') ← startAlphaBeta env 200 p d len0 s
+    s := copyBestLine s' l0
+    len0 := l0
+    out := out ++ s!" | d={d} score={score} one={b2i one} pv={pvStr s.cand}"
+  pure out
+
+def eventStr : Event → String
+  | .infoPv sc d n pv => s!"info score {sc} depth {d} nodes {n} pv {pvStr pv}"
+  | .infoDepth d sc n pv => s!"info depth {d} score {sc} nodes {n} pv {pvStr pv}"
+  | .currmove m k n => s!"info currmove {mvStr m} currmovenumber {k} nodes {n}"
+  | .bestmove m => s!"bestmove {mvStr m}"
+  | .infoTerminal sc => s!"info depth 0 score {sc}"
+  | .bestmoveNone => "bestmove 0000"
 
 def lcg (s : Nat) : Nat := (s * 6364136223846793005 + 1442695040888963407) % 18446744073709551616
 
@@ -253,6 +285,59 @@ def dispatch (f : List String) : String :=
         ply := ply + 1
         out := out.push (specMoveStr m ++ "=" ++ Spec.toFen sp (ply / 2 + 1))
       pure ("ok " ++ ";".intercalate out.toList)
+  | ["sdivide", fen, n] => withFen fen fun p =>
+      let sp := abs p
+      let n := n.toNat!
+      let ms := Spec.legalMoves sp
+      let pe := ms.map fun m => (specMoveStr m, Spec.paths (Spec.apply sp m) (n - 1))
+      let te := ms.map fun m => (specMoveStr m,
+        if n ≤ 1 then (if Spec.isTactical sp m then 1 else 0) else Spec.tacticalPaths (Spec.apply sp m) (n - 2))
+      let fmt (es : List (String × Nat)) (dropZero : Bool) : String :=
+        sortedStrs ((es.filter fun e => !dropZero || e.2 != 0).map fun e => e.1 ++ ":" ++ toString e.2) ++ "|" ++
+          toString ((es.map (·.2)).sum)
+      pure s!"ok perft={fmt pe false} tperft={fmt te true}"
+  | ["msearch", fen, d, lz] => withFen fen fun p => do
+      let r ← searchIters (lz == "1") p d.toNat!
+      pure ("ok" ++ r)
+  | ["miter", fen, d] => withFen fen fun p => do
+      let env := quietEnv true
+      let s ← iterDeep env 200 p d.toNat! Killers.empty (newRows env.pvRows) env.pvRows
+      pure ("ok " ++ " ; ".intercalate (s.out.reverse.map eventStr))
+  | ["spv", fen, pv] => withFen fen fun p => do
+      -- replay a principal variation with the specification: ok <n> | bad <index>
+      let mut sp := abs p
+      let mut i := 0
+      let mvs := (pv.splitOn ",").filter (· != "")
+      if mvs.isEmpty then return "bad empty"
+      for mv in mvs do
+        match specFindMove sp mv with
+        | none => return s!"bad {i}"
+        | some m => sp := Spec.apply sp m
+        i := i + 1
+      pure s!"ok {i}"
+  | ["smate", fen, n] => withFen fen fun p =>
+      -- shortest forced mate within n plies by the AND/OR specification: win k | lose k | none
+      let sp := abs p
+      let n := n.toNat!
+      let w := (List.range (n + 1)).find? fun k => Spec.winsIn sp k
+      let l := (List.range (n + 1)).find? fun k => Spec.losesIn sp k
+      pure (match w, l with
+        | some k, _ => s!"ok win {k}"
+        | none, some k => s!"ok lose {k}"
+        | none, none => "ok none")
+  | ["smateafter", fen, mv, n] => withFen fen fun p =>
+      let sp := abs p
+      match specFindMove sp mv with
+      | none => pure "ok illegal"
+      | some m =>
+        let sp := Spec.apply sp m
+        let n := n.toNat!
+        let w := (List.range (n + 1)).find? fun k => Spec.winsIn sp k
+        let l := (List.range (n + 1)).find? fun k => Spec.losesIn sp k
+        pure (match w, l with
+          | some k, _ => s!"ok win {k}"
+          | none, some k => s!"ok lose {k}"
+          | none, none => "ok none")
   | ["slegal", fen] => withFen fen fun p => pure s!"ok {b2i (Spec.Legal (abs p))}"
   | _ => "badop"
 
